@@ -21,9 +21,10 @@ PATTERNS = [('a', False), ('ab', False), ('A', False), ('b+', True), ('a*', True
 
 
 class HistGen:
-    def __init__(self, rng, weights=None, kinds=(0, 1), odd=False, bad=0.0, max_pool=7, unicode_=True, maxlen=8, esc=0.0):
+    def __init__(self, rng, weights=None, kinds=(0, 1), odd=False, bad=0.0, max_pool=7, unicode_=True, maxlen=8, esc=0.0, sgr_operands=0.0):
         self.r = rng
         self.g = Gen(rng, odd=odd, bad=bad, unicode_=unicode_, esc=esc)
+        self.sgr_operands = sgr_operands      # probability that a plain-str operand of + / += / join carries SGR sequences of its own
         w = dict(DEFAULT_W)
         if weights is not None:
             w = {k: weights.get(k, 0) for k in ALL_OPS}
@@ -53,6 +54,10 @@ class HistGen:
         r = self.r
         if r.random() < 0.65:
             return ['obj', self.pick_obj(P)]
+        if self.sgr_operands and r.random() < self.sgr_operands:
+            # a str with escape sequences is read as formatted text of its own: styles left open at its end must not reach
+            # the next operand, and each operand is read separately
+            return ['str', r.choice(['\x1b[1mT', '\x1b[31mab\x1b[m', '\x1b[4mu\x1b[24m.', '\x1b[38;5;214mq', 'a\x1b[3mb', '\x1b[1m', '\x1b[1;31mxy', ': '])]
         return ['str', self.g.text(0, 4)]
 
     def sub_of(self, base):
